@@ -159,7 +159,157 @@ func genLock() {
 	hashFn(lockRel, "unify")
 	hashFn(lockRel, "LockImageConfiguration")
 	hashFn("pkg/build/installable_from_lock.go", "installablePackagesForArch")
+
+	// ---- pkg/build/lock.go: unify and the loops of LockImageConfiguration, statement by statement ----
+	// (the whole tree: every loop and branch opened, error texts dropped; Model/Lock.lean `unify`, `resolvedOf`
+	// mirror exactly these statements - including the dead loop over `missing` with its versions/pinned mix-up)
+	if ud := lf.fn("unify"); ud != nil {
+		l.defStrList("unifyStmts", lockStmtTree(lf, ud.Body.List, ""))
+	} else {
+		l.defStrList("unifyStmts", nil)
+	}
+	if ld := lf.fn("LockImageConfiguration"); ld != nil {
+		l.defStrList("lockImageConfigurationStmts", lockStmtTree(lf, ld.Body.List, ""))
+	} else {
+		problem("lock.go: LockImageConfiguration not found")
+		l.defStrList("lockImageConfigurationStmts", nil)
+	}
+
+	// ---- the writer of lock.json: the loops of LockCmd that fill lock.Contents, the JSON names of every field of
+	// pkg/lock's structs, and SaveToFile ----
+	var fill []string
+	if fd != nil {
+		ast.Inspect(fd.Body, func(n ast.Node) bool {
+			rs, ok := n.(*ast.RangeStmt)
+			if !ok {
+				return true
+			}
+			touches := false
+			ast.Inspect(rs.Body, func(m ast.Node) bool {
+				if as, ok := m.(*ast.AssignStmt); ok && len(as.Lhs) == 1 && strings.HasPrefix(f.src(as.Lhs[0]), "lock.Contents.") {
+					touches = true
+				}
+				return true
+			})
+			// only the innermost loops that append to lock.Contents (the per-architecture loop contains two of them)
+			inner := false
+			for _, st := range rs.Body.List {
+				if _, ok := st.(*ast.RangeStmt); ok {
+					inner = true
+				}
+			}
+			if touches && !inner {
+				fill = append(fill, lockStmtTree(f, []ast.Stmt{rs}, "")...)
+				return false
+			}
+			return true
+		})
+	}
+	if len(fill) == 0 {
+		problem("cli/lock.go: no loop of LockCmd assigns to lock.Contents")
+	}
+	l.defStrList("lockContentsFillStmts", fill)
+	const plRel = "pkg/lock/lock.go"
+	pf := load(plRel)
+	var tags [][2]string
+	for _, d := range pf.f.Decls {
+		gd, ok := d.(*ast.GenDecl)
+		if !ok || gd.Tok != token.TYPE {
+			continue
+		}
+		for _, sp := range gd.Specs {
+			ts, ok := sp.(*ast.TypeSpec)
+			if !ok {
+				continue
+			}
+			st, ok := ts.Type.(*ast.StructType)
+			if !ok {
+				continue
+			}
+			for _, fld := range st.Fields.List {
+				tag := ""
+				if fld.Tag != nil {
+					tag, _ = litString(fld.Tag)
+				}
+				for _, nm := range fld.Names {
+					tags = append(tags, [2]string{ts.Name.Name + "." + nm.Name + " " + pf.src(fld.Type), tag})
+				}
+			}
+		}
+	}
+	if len(tags) == 0 {
+		problem("lock.go: no struct of pkg/lock found")
+	}
+	l.defStrStrList("lockJsonFields", tags)
+	if sd := pf.fn("Lock.SaveToFile"); sd != nil {
+		l.defStrList("saveToFileStmts", lockStmtTree(pf, sd.Body.List, ""))
+	} else {
+		problem("lock.go: Lock.SaveToFile not found")
+		l.defStrList("saveToFileStmts", nil)
+	}
 	l.write()
+}
+
+// lockStmtTree renders statements as an indented tree: `if` / `for` / `range` / `switch` headers on their own line
+// with their bodies below (two spaces per level), `return` of an error without its text, everything else as its
+// normalised source.
+func lockStmtTree(f *File, list []ast.Stmt, ind string) []string {
+	var out []string
+	for _, s := range list {
+		switch x := s.(type) {
+		case *ast.IfStmt:
+			head := "if "
+			if x.Init != nil {
+				head += f.src(x.Init) + "; "
+			}
+			out = append(out, ind+head+f.src(x.Cond))
+			out = append(out, lockStmtTree(f, x.Body.List, ind+"  ")...)
+			switch e := x.Else.(type) {
+			case *ast.BlockStmt:
+				out = append(out, ind+"else")
+				out = append(out, lockStmtTree(f, e.List, ind+"  ")...)
+			case *ast.IfStmt:
+				out = append(out, ind+"else")
+				out = append(out, lockStmtTree(f, []ast.Stmt{e}, ind+"  ")...)
+			}
+		case *ast.RangeStmt:
+			k, v := "_", "_"
+			if x.Key != nil {
+				k = f.src(x.Key)
+			}
+			if x.Value != nil {
+				v = f.src(x.Value)
+			}
+			out = append(out, ind+"for "+k+", "+v+" := range "+f.src(x.X))
+			out = append(out, lockStmtTree(f, x.Body.List, ind+"  ")...)
+		case *ast.ForStmt:
+			h := "for"
+			if x.Cond != nil {
+				h += " " + f.src(x.Cond)
+			}
+			out = append(out, ind+h)
+			out = append(out, lockStmtTree(f, x.Body.List, ind+"  ")...)
+		case *ast.ReturnStmt:
+			if n := len(x.Results); n > 0 {
+				if c, ok := x.Results[n-1].(*ast.CallExpr); ok {
+					if fn := f.src(c.Fun); fn == "fmt.Errorf" || fn == "errors.New" {
+						var rs []string
+						for _, r := range x.Results[:n-1] {
+							rs = append(rs, f.src(r))
+						}
+						out = append(out, ind+"return "+strings.Join(append(rs, "<error>"), ", "))
+						continue
+					}
+				}
+			}
+			out = append(out, ind+f.src(s))
+		case *ast.BlockStmt:
+			out = append(out, lockStmtTree(f, x.List, ind)...)
+		default:
+			out = append(out, ind+f.src(s))
+		}
+	}
+	return out
 }
 
 // firstFromFormat: "bytes=0-%d" → the literal first byte
